@@ -154,3 +154,9 @@ Proof. vm_compute. discriminate. Qed.
 (* an accepted document is never nested deeper than the limit: the decoder's recursion is bounded *)
 Lemma accepted_nesting_bounded w n k : run_nesting [w; n; k] = [1] -> nesting_levels w n <= max_nesting.
 Proof. cbn [run_nesting]. destruct (Z.leb_spec (nesting_levels w n) max_nesting); [auto|discriminate]. Qed.
+
+Lemma net_nesting_bounded n t : run_net_nesting [n; t] = [1] -> nesting_levels 0 n <= max_nesting.
+Proof.
+  cbn [run_net_nesting]. destruct (z2b t); cbn [andb]; [|discriminate].
+  destruct (Z.leb_spec (nesting_levels 0 n) max_nesting); [auto|discriminate].
+Qed.
